@@ -56,7 +56,13 @@ RULE = ("Case = element Z (1..18, small Z favoured) x mock AtomicData whose ioni
         "n_e x smallest rate 1e-3..1e6 1/s; values on the extremes of the budget favoured) and log-slopes a, b x points "
         "(n_e 1e17-1e21, T_e 1-1e4 eV within half a decade of (n0, T0)) x CX donor (none / H0 / D0 / He0 / He1+, donor density 0 "
         "or 1e-3..10 n_e) x entry point and input representation (python scalar, 1-D / 2-D ndarray, Function1D / Function2D "
-        "(python functions and raysect interpolators) + free variables, mixed per argument). Each point is classified a priori "
+        "(python functions and raysect interpolators) + free variables, mixed per argument; free-variable grids are float arrays "
+        "or integer-typed ones - np.arange, int32 / int64 arrays, a python int for a single point - with non-integer profile "
+        "values; lists of python numbers are not generated: the code documents numpy arrays and reads a list as the (x, y) pair). "
+        "match_plasma_neutrality: the other species carry 0-0.95 n_e of charge, and at a quarter of the points of a profile "
+        "1.05-3 n_e (over-neutral: only densities >= 0 is demanded there, the full relations at the other points). Every "
+        "interpolators1d_* / interpolators2d_* / equilibrium_map3d_* wrapper is compared with the direct array call given the same "
+        "donor arguments, and is required to have been hit with a donor that moves a fraction by > 1e-3. Each point is classified a priori "
         "from the oracle side: main class iff 20 eps cond2(A) + 1e-13 <= 1e-6 and min exact fraction above that tolerance; only "
         "main-class points are passed to the code in-process. Non-trivial = at least min(3, Z+1) charge states carry a fraction "
         "> 1e-6 and, when a donor with positive density is given, the donor moves some fraction by > 1e-3 (n_D C comparable to "
@@ -79,7 +85,11 @@ TOLERANCES = {
     "wide class": "fixed 1e-6 absolute (the cap of the main class), run in a child process, %g s limit, time-out = inconclusive" % WIDE_LIMIT_S,
 }
 REQUIRED_LABELS = ["fractional:donor", "fractional:nodonor", "fractional:nt", "densities:neutrality", "densities:elementdensity",
-                   "repr:shape:0d", "repr:shape:1d", "repr:shape:2d", "repr:interp1d", "repr:interp2d"]
+                   "densities:over-neutral", "repr:shape:0d", "repr:shape:1d", "repr:shape:2d", "repr:interp1d", "repr:interp2d",
+                   "repr:fv:arange", "repr:fv:int32", "repr:fv:int64"] + \
+                  ["repr:donor:interpolators%s_%s" % (d, w) for d in ("1d", "2d")
+                   for w in ("fractional", "from_elementdensity", "match_plasma_neutrality")] + \
+                  ["map3d:donor:equilibrium_map3d_%s" % w for w in ("fractional", "from_elementdensity", "match_plasma_neutrality")]
 
 DONORS = {"H0": ("hydrogen", 0, False), "D0": ("deuterium", 0, True), "He0": ("helium", 0, False), "He1": ("helium", 1, False)}
 
@@ -398,6 +408,10 @@ def strat_densities(draw):
             "species": draw(_species(draw(st.integers(0, 2)))),
             "spec_as_dict": draw(st.booleans()),
             "scalar": draw(st.booleans()) if n == 1 else False}
+    # per-point multiplier of the other species' densities: 1, or such that they carry 1.05-3 x the charge n_e (over-neutral
+    # point: neutrality cannot hold, the bulk is documented to be clamped to zero there)
+    qfrac = sum(c * w[c] for w in case["species"] for c in range(len(w)))
+    case["qmul"] = [(draw(st.floats(1.05, 3.0)) / qfrac) if (qfrac > 1e-3 and draw(st.integers(0, 3)) == 0) else 1.0 for _ in range(n)]
     if EXCL_TCX and donor is not None and any(p[2] > 0 for p in pts):
         case["excluded_known"] = True       # agreement with the recursion is not asserted for these (conservation still is)
     return case
@@ -453,9 +467,10 @@ def run_densities(case, ctx):
     # --- match_plasma_neutrality
     ctx.label("neutrality")
     spec_w = case["species"]
+    qmul = [case.get("qmul", [1.0] * len(raw))[k] for k in idx]
     species, qtot = [], np.zeros(len(idx))
     for w in spec_w:
-        dens = np.array([[w[c] * ne[k] for k in range(len(idx))] for c in range(len(w))])
+        dens = np.array([[w[c] * qmul[k] * ne[k] for k in range(len(idx))] for c in range(len(w))])
         for c in range(len(w)):
             qtot = qtot + c * dens[c]
         species.append({c: dens[c] for c in range(len(w))} if case.get("spec_as_dict") else dens)
@@ -467,12 +482,16 @@ def run_densities(case, ctx):
     zz = z * (z + 1) / 2.0
     for k, p in enumerate(pts):
         d = arr[:, k]
+        ctx.check(bool(np.all(np.isfinite(d))) and d.min() >= 0.0, "neutrality:nonneg",
+                  lambda: "densities %r (other species carry %.3g n_e)" % (d.tolist(), qtot[k] / ne[k]))
+        if qtot[k] > ne[k]:
+            ctx.label("over-neutral")       # generated at >= 1.05 n_e: only non-negativity can hold
+            continue
         ref = plain[idx[k]] if skip_agree else p          # only for the first-order validity test
         if not min(p.zmean, ref.zmean) > 10 * max(p.tol, ref.tol) * zz:
             ctx.label("zmean-tiny-skipped")
             continue
         e = ne[k] - qtot[k]
-        ctx.check(bool(np.all(np.isfinite(d))) and d.min() >= 0.0, "neutrality:nonneg", lambda: "densities %r" % d.tolist())
         charge = float(sum(c * d[c] for c in range(z + 1)))
         ctx.check(abs(charge + qtot[k] - ne[k]) <= 1e-11 * ne[k], "neutrality:charge",
                   lambda: "sum_z z n_z = %r plus other species %r != n_e %r" % (charge, qtot[k], ne[k]))
@@ -492,7 +511,8 @@ def _prof(spec, x, y=0.0):
     """positive analytic profile v0 exp(c1 (x - x0) + c2 (y - y0)); 'zero' for an absent donor density"""
     if spec["k"] == "zero":
         return 0.0
-    return spec["v0"] * math.exp(spec["c1"] * (x - spec["x0"]) + spec["c2"] * (y - spec["y0"])) * spec.get("mul", 1.0)
+    return spec["v0"] * math.exp(spec["c1"] * (float(x) - float(spec["x0"])) + spec["c2"] * (float(y) - float(spec["y0"]))) \
+        * spec.get("mul", 1.0)
 
 
 def _mkfn(spec, dim, kind, fv):
@@ -500,11 +520,11 @@ def _mkfn(spec, dim, kind, fv):
     if dim == 1:
         if kind == "interp" and len(fv[0]) >= 2:
             vals = np.array([_prof(spec, x) for x in fv[0]])
-            return Interpolator1DArray(np.array(fv[0]), vals, "linear", "none", 0)
+            return Interpolator1DArray(np.array(fv[0], dtype=float), vals, "linear", "none", 0)
         return PythonFunction1D(lambda x: _prof(spec, x))
     if kind == "interp" and len(fv[0]) >= 2 and len(fv[1]) >= 2:
         vals = np.array([[_prof(spec, x, y) for y in fv[1]] for x in fv[0]])
-        return Interpolator2DArray(np.array(fv[0]), np.array(fv[1]), vals, "linear", "none", 0, 0)
+        return Interpolator2DArray(np.array(fv[0], dtype=float), np.array(fv[1], dtype=float), vals, "linear", "none", 0, 0)
     return PythonFunction2D(lambda x, y: _prof(spec, x, y))
 
 
@@ -519,17 +539,38 @@ def _axis(draw, n):
 
 
 @st.composite
+def _axis_int(draw, n, unit_step):
+    """strictly increasing integer grid (np.arange-like when unit_step)"""
+    xs = [draw(st.integers(-3, 3))]
+    for _ in range(n - 1):
+        xs.append(xs[-1] + (1 if unit_step else draw(st.integers(1, 3))))
+    return xs
+
+
+FV_DTYPES = {"float": float, "arange": None, "int32": np.int32, "int64": np.int64}
+
+
+def _fv_array(a, fvtype):
+    """the free-variable object handed to the code: float array, or an integer-typed array holding the same grid"""
+    if fvtype == "arange":
+        return np.arange(int(a[0]), int(a[0]) + len(a))
+    return np.array(a, dtype=FV_DTYPES[fvtype])
+
+
+@st.composite
 def strat_repr(draw):
     shape = draw(st.sampled_from(["0d", "1d", "1d", "2d", "2d"]))
+    fvtype = draw(st.sampled_from(["float", "float", "arange", "int32", "int64"]))
     z = draw(st.one_of(st.integers(1, 4), st.integers(1, 10)))
     donor = draw(st.sampled_from([None, "H0", "D0", "He1"]))
     rates = draw(_rates(z, donor is not None, dmax=2.5, xhi=4.0))
+    ax = _axis if fvtype == "float" else (lambda n: _axis_int(n, fvtype == "arange"))
     if shape == "0d":
-        fv = [[draw(st.floats(-2.0, 2.0))]]
+        fv = [[draw(st.floats(-2.0, 2.0)) if fvtype == "float" else draw(st.integers(-3, 3))]]
     elif shape == "1d":
-        fv = [draw(_axis(draw(st.integers(2, 5))))]
+        fv = [draw(ax(draw(st.integers(2, 5))))]
     else:
-        fv = [draw(_axis(draw(st.integers(2, 4)))), draw(_axis(draw(st.integers(2, 3))))]
+        fv = [draw(ax(draw(st.integers(2, 4)))), draw(ax(draw(st.integers(2, 3))))]
     ext = [max(a[-1] - a[0], 1e-3) for a in fv] + [1.0]
 
     def prof(v0, amp):
@@ -551,8 +592,8 @@ def strat_repr(draw):
     variants = [{"ne": draw(st.sampled_from(kinds)), "te": draw(st.sampled_from(kinds)), "nd": draw(st.sampled_from(kinds)),
                  "nel": draw(st.sampled_from(kinds)), "sp": draw(st.sampled_from(kinds + ["arrdict"])),
                  "fv": draw(st.sampled_from(["tuple", "list"]))} for _ in range(nvar)]
-    return {"Z": z, "donor": donor, "rates": rates, "shape": shape, "fv": fv, "ne": ne, "te": te, "nd": nd, "nel": nel,
-            "species": species, "variants": variants, "scalar_pts": draw(st.integers(0, 2))}
+    return {"Z": z, "donor": donor, "rates": rates, "shape": shape, "fv": fv, "fvtype": fvtype, "ne": ne, "te": te, "nd": nd,
+            "nel": nel, "species": species, "variants": variants, "scalar_pts": draw(st.integers(0, 2))}
 
 
 def _grid(case):
@@ -597,7 +638,10 @@ def run_repr(case, ctx):
         _skip_label(ctx, 1)
         return
     ctx.label("shape:" + shape_kind)
+    ctx.label("fv:" + case.get("fvtype", "float"))
     _labels(ctx, z, flat, nd_on)
+    # the donor matters: dropping its density anywhere moves a fraction by > 1e-3 (n_D C comparable to n_e alpha)
+    donor_matters = nd_on and any(float(np.max(np.abs(a.f - b.f))) > 1e-3 for a, b in zip(flat, flat0))
     spec_vals = [np.array([[_prof(s, x, y) for x, y in grid] for s in sp]).reshape((len(sp),) + shape) for sp in case["species"]]
     dargs = (donor, vals["nd"], q) if donor is not None else ()
 
@@ -611,10 +655,13 @@ def run_repr(case, ctx):
     _check_fractions(ctx, {c: r_frac[c].ravel() for c in range(z + 1)}, flat, "frac-ref")
 
     # --- alternative representations
+    fvtype = case.get("fvtype", "float")
+
     def free(v):
-        arrs = [np.array(a) for a in fv]
+        # integer-typed grids (np.arange / int32 / int64 arrays, python int for a single point) hold the same coordinates
+        arrs = [_fv_array(a, fvtype) for a in fv]
         if shape_kind == "0d":
-            return fv[0][0]
+            return float(fv[0][0]) if fvtype == "float" else int(fv[0][0])
         if dim == 1:
             return arrs[0]
         return tuple(arrs) if v["fv"] == "tuple" else list(arrs)
@@ -682,7 +729,10 @@ def run_repr(case, ctx):
         # interpolator factories reproduce the node values
         if shape_kind == "1d":
             ctx.label("interp1d")
-            x = np.array(fv[0])
+            x = f
+            if donor_matters:
+                ctx.label("donor:interpolators1d_fractional", "donor:interpolators1d_from_elementdensity",
+                          "donor:interpolators1d_match_plasma_neutrality")
             with ctx.cut("interpolators1d_*"), _quiet():
                 i_f = IB.interpolators1d_fractional(data, el, x, obj["ne"], obj["te"], *dv)
                 i_d = IB.interpolators1d_from_elementdensity(data, el, x, obj["nel"], obj["ne"], obj["te"], *dv)
@@ -696,6 +746,9 @@ def run_repr(case, ctx):
         elif shape_kind == "2d":
             ctx.label("interp2d")
             f2 = free(v)
+            if donor_matters:
+                ctx.label("donor:interpolators2d_fractional", "donor:interpolators2d_from_elementdensity",
+                          "donor:interpolators2d_match_plasma_neutrality")
             with ctx.cut("interpolators2d_*"), _quiet():
                 i_f = IB.interpolators2d_fractional(data, el, f2, obj["ne"], obj["te"], *dv)
                 i_d = IB.interpolators2d_from_elementdensity(data, el, f2, obj["nel"], obj["ne"], obj["te"], *dv)
@@ -803,6 +856,9 @@ def run_map3d(case, ctx):
                 want = Interpolator1DArray(psin, ref[c], itype, "none", 0)(pn) if inside else 0.0
                 ctx.close(g, want, nm + ":map3d", rtol=1e-9, scale=float(np.max(np.abs(ref[c]))), info="(charge %d, psi_n %r)" % (c, pn))
     ctx.label("inside-lcfs" if n_in else "all-outside")
+    if n_in and donor is not None and any(float(np.max(np.abs(a.f - b.f))) > 1e-3 for a, b in zip(flat, flat0)):
+        ctx.label("donor:equilibrium_map3d_fractional", "donor:equilibrium_map3d_from_elementdensity",
+                  "donor:equilibrium_map3d_match_plasma_neutrality")
     ctx.nt(n_in > 0 and max(p.populated() for p in flat) >= min(3, z + 1))
 
 
@@ -907,7 +963,7 @@ SUBCHECKS = {
                        doc="from_elementdensity = n_el x fractions; match_plasma_neutrality: non-negative, charge closes, fractions"),
     "repr": Given(strat_repr, run_repr, quick=600, thorough=8000,
                   doc="scalar / ndarray / Function1D / Function2D inputs give the same arrays; interpolators reproduce node values"),
-    "map3d": Given(strat_map3d, run_map3d, quick=40, thorough=800,
+    "map3d": Given(strat_map3d, run_map3d, quick=64, thorough=800,
                    doc="equilibrium_map3d_* equal the directly computed profile interpolated at psi_n(R, Z)"),
     "wide": Given(strat_wide, run_wide, quick=32, thorough=320,
                   doc="rate sets outside the main class, child process with a time limit"),
